@@ -120,3 +120,47 @@ Definition e2e_violates (c : e2e_case_t) : bool :=
   let '(shared, tr, rd) := c in negb (e2e_ok shared [] [] tr rd).
 Definition e2e_mismatches (cs : list e2e_case_t) : list nat := find_idx e2e_mismatch cs.
 Definition e2e_violations (cs : list e2e_case_t) : list nat := find_idx e2e_violates cs.
+
+(* ---- end-to-end cases on virtual channels (model in Cesium/ControlMonitor.v) ---- *)
+Definition e2ev_case_t : Type := list (vop * vobs).
+
+Definition e2ev_mismatch (c : e2ev_case_t) : bool :=
+  negb (bool_decide (e2ev_run vinit (map fst c) = map snd c)).
+
+(* the property on the implementation's observations: per channel the open writers with their
+   authority; virtual channels are shared-mode, so a writer may write a channel iff nobody open
+   on it has a higher authority; a frame is reported authorized iff that holds for every channel
+   of the frame the writer holds. *)
+Definition vtab : Type := list (N * N * N).   (* channel, writer, authority *)
+Definition vmax (t : vtab) (k : N) : N :=
+  foldr (fun e m => if e.1.1 =? k then N.max e.2 m else m) 0 t.
+Definition vauth (t : vtab) (k w : N) : option N :=
+  match filter (fun e => (e.1.1 =? k) && (e.1.2 =? w)) t with e :: _ => Some e.2 | [] => None end.
+
+Fixpoint e2ev_ok (t : vtab) (tr : list (vop * vobs)) : bool :=
+  match tr with
+  | [] => true
+  | (o, (st, az)) :: rest =>
+      match o with
+      | VOpen w _ chans _ =>
+          e2ev_ok (if st =? 0 then t ++ map (fun p => (p.1, w, p.2)) chans else t) rest
+      | VSet w chans =>
+          e2ev_ok (if st =? 0 then
+                     map (fun e => match filter (fun p => (p.1 =? e.1.1)) chans with
+                                   | p :: _ => if e.1.2 =? w then (e.1.1, w, p.2) else e
+                                   | [] => e end) t
+                   else t) rest
+      | VClose w => e2ev_ok (if st =? 0 then filter (fun e => negb (e.1.2 =? w)) t else t) rest
+      | VWrite w keys =>
+          if st =? 0 then
+            let should := forallb (fun k => match vauth t k w with
+                                            | Some a => vmax t k <=? a
+                                            | None => true end) keys in
+            if bool_decide (az = if should then 1 else 0) then e2ev_ok t rest else false
+          else e2ev_ok t rest
+      end
+  end.
+
+Definition e2ev_violates (c : e2ev_case_t) : bool := negb (e2ev_ok [] c).
+Definition e2ev_mismatches (cs : list e2ev_case_t) : list nat := find_idx e2ev_mismatch cs.
+Definition e2ev_violations (cs : list e2ev_case_t) : list nat := find_idx e2ev_violates cs.
